@@ -315,7 +315,47 @@ def generate_snippet(repo='/repo'):
     return '\n'.join(out) + '\n'
 
 
+def generate_fast_len(repo='/repo'):
+    """transforms.fast_len: the crop is a plain time slice z[:prev_fast_len(len(z))] of the signal itself"""
+    src = pathlib.Path(repo, 'pulsarbat', 'transforms', 'transforms.py').read_text()
+    fn = find_func(ast.parse(src), 'fast_len')
+    a = fn.args
+    if [x.arg for x in a.posonlyargs] != ['z'] or a.args or a.vararg or a.kwarg or a.kwonlyargs:
+        raise Unsupported('signature of fast_len')
+    body = stmts(fn)
+    env = {}
+    for st in body[:-1]:
+        if not (isinstance(st, ast.Assign) and len(st.targets) == 1 and isinstance(st.targets[0], ast.Name)):
+            raise Unsupported('fast_len: statement ' + ast.unparse(st))
+        v = st.value
+        if is_src(v, 'len(z)'):
+            env[st.targets[0].id] = 'N'
+        elif isinstance(v, ast.Call) and ast.unparse(v.func) in ('pb.utils.prev_fast_len', 'pb.utils.next_fast_len') and len(v.args) == 1 and not v.keywords \
+                and (is_src(v.args[0], 'len(z)') or (isinstance(v.args[0], ast.Name) and env.get(v.args[0].id) == 'N')):
+            env[st.targets[0].id] = ('prev' if 'prev' in ast.unparse(v.func) else 'next') + '_fast_len N'
+        else:
+            raise Unsupported('fast_len: expression ' + ast.unparse(v))
+    r = body[-1]
+    if not (isinstance(r, ast.Return) and isinstance(r.value, ast.Subscript) and is_src(r.value.value, 'z') and isinstance(r.value.slice, ast.Slice)
+            and r.value.slice.step is None):
+        raise Unsupported('fast_len: the result is not a time slice of z: ' + ast.unparse(r))
+
+    def bound(n):
+        if n is None:
+            return 'Some None'
+        if isinstance(n, ast.Name) and n.id in env and env[n.id] != 'N':
+            return f'match {env[n.id]} with Some k => Some (Some k) | None => None end'
+        raise Unsupported('fast_len: slice bound ' + ast.unparse(n))
+    out = ['(* GENERATED by translate/py_shift2coq.py from transforms.fast_len -- do not edit *)',
+           'From Coq Require Import ZArith.', 'From PB Require Import Model.FastLen.', 'Open Scope Z_scope.',
+           '(* the slice bounds of the crop (None = the fuelled integer function ran out of fuel) *)',
+           f'Definition gen_fast_len_lo (N : Z) : option (option Z) := {bound(r.value.slice.lower)}.',
+           f'Definition gen_fast_len_hi (N : Z) : option (option Z) := {bound(r.value.slice.upper)}.']
+    return '\n'.join(out) + '\n'
+
+
 if __name__ == '__main__':
     repo = sys.argv[1] if len(sys.argv) > 1 else '/repo'
     sys.stdout.write(generate(repo))
     sys.stdout.write(generate_snippet(repo))
+    sys.stdout.write(generate_fast_len(repo))
